@@ -249,6 +249,11 @@ A64Step(P, s) ==
         ELSE IF j = 0 THEN AFailS(s, "jump", "branch target is not a label plus a whole number of instructions")
         ELSE [s EXCEPT !.pc = j, !.steps = s.steps + 1]
   ELSE IF op = "BL" THEN A64ExternCall(s, i.a[1].l)
+  ELSE IF op = "BLR" THEN        \* call through a register that holds the address of the external function
+     LET v == A64Get(s, i.a[1].r)
+     IN IF IsJunk(v) THEN AFailS(s, "undef", "call through an undefined register")
+        ELSE IF v.t = "code" /\ v.o = 0 THEN A64ExternCall(s, v.l)
+        ELSE AFailS(s, "value", "call through a value that is no function address")
   ELSE IF op = "RET" THEN A64Ret(s)
   ELSE AFailS(s, "tool", "unknown instruction " \o op)
 =============================================================================
